@@ -260,9 +260,17 @@ type SexpArray struct {
 	Infix               bool
 
 	Env *Zlisp
+
+	typing bool // Type() is in progress (guards against self-containing arrays)
 }
 
 func (r *SexpArray) Type() *RegisteredType {
+	if r.typing {
+		// the array contains itself: it has no element type
+		return nil
+	}
+	r.typing = true
+	defer func() { r.typing = false }()
 	if r.Typ == nil {
 		if len(r.Val) > 0 {
 			// take type from first element
